@@ -343,6 +343,8 @@ class SessionCheck(Check):
     # ------------------------------------------------------------------ references
     @staticmethod
     def needed_pairs(scenario: dict) -> list:
+        if scenario.get("kind") == "refshard":
+            return []
         pairs = {}
         slots = {}
         for op in scenario.get("ops", []):
@@ -359,9 +361,8 @@ class SessionCheck(Check):
                     pairs[spec_key(spec) + "|array"] = (spec, "array")
             elif op["op"] == "fault" and op["fault"]["kind"] == "hashseed_restart":
                 slots = {}
-        if scenario.get("kind") == "crossproc":
-            spec = scenario["spec"]
-            pairs[spec_key(spec) + "|" + scenario["getter"]] = (spec, scenario["getter"])
+        if scenario.get("kind") == "refshard":
+            return []
         return list(pairs.values())
 
     def prepare(self, scenarios: list, workers: int = N_WORKERS):
@@ -406,12 +407,17 @@ class SessionCheck(Check):
             futs = [(tag, ex.submit(run_child, job, hs)) for tag, si, job, hs in jobs]
             for tag, fut in futs:
                 res[tag].update(fut.result())
+        shard_of = {}
+        for si, shard in enumerate(shards):
+            for spec, getter in shard:
+                shard_of[spec_key(spec) + "|" + getter] = si
         for k in need:
             a, b = res["A"].get(k), res["B"].get(k)
             if a is None or b is None:
                 raise HarnessError(f"reference missing for {k}")
             if a != b:
-                self.ref_disagreements.append((k, a, b))
+                # keep the whole shard: what differs between the two interpreters may be what ran BEFORE this pair
+                self.ref_disagreements.append((k, a, b, [[sp, g] for sp, g in shards[shard_of[k]]]))
             self.reference[k] = a
 
     def prepare_seeds(self, tier: str, seeds: list, workers: int = N_WORKERS):
@@ -424,20 +430,35 @@ class SessionCheck(Check):
         missing = [p for p in self.needed_pairs(scenario) if spec_key(p[0]) + "|" + p[1] not in self.reference]
         if missing:
             self.prepare([scenario])
-        if scenario.get("kind") == "crossproc":
-            k = spec_key(scenario["spec"]) + "|" + scenario["getter"]
-            for kk, a, b in self.ref_disagreements:
-                if kk == k:
-                    raise Violation("reproducibility", f"{k}: two fresh interpreters disagree ({a} vs {b})")
-            return {"events": 2, "fingerprint": self.reference[k], "faults": {}, "probes": {}, "sig": None,
-                    "nontrivial": False}
-        for kk, a, b in self.ref_disagreements:
+        if scenario.get("kind") == "refshard":
+            return self._exec_refshard(scenario)
+        for kk, a, b, shard in self.ref_disagreements:
             for spec, getter in self.needed_pairs(scenario):
                 if spec_key(spec) + "|" + getter == kk:
                     v = Violation("reproducibility", f"{kk}: two fresh interpreters (different PYTHONHASHSEED / initial "
-                                                   f"RNG state / order) disagree: {a} vs {b}")
+                                                   f"RNG state / order of the first calls before it) disagree: {a} vs {b}")
+                    v.scenario = {"kind": "refshard", "ops": shard}
                     raise v
         return self._exec_history(scenario["ops"], rng_init=scenario.get("rng_init", 0xC0FFEE))
+
+    def _exec_refshard(self, sc: dict) -> dict:
+        """A list of (specification, getter) pairs, each evaluated as the first call on a fresh object, once in the
+        given order and once in reverse, in two fresh interpreters with different hash seeds and initial generator
+        states.  Any disagreement is history- or process-dependence of the library."""
+        pairs = [(sp, g) for sp, g in sc["ops"]]
+        if not pairs:
+            return {"events": 0, "fingerprint": "empty", "faults": {}, "probes": {}, "sig": None, "nontrivial": False}
+        a = run_child({"mode": "reference", "pairs": pairs, "rng_init": [{"kind": "rng_reseed", "seed": 20240917}]}, 101)
+        b = run_child({"mode": "reference", "pairs": list(reversed(pairs)),
+                       "rng_init": [{"kind": "rng_foreign_state", "seed": 977, "advance": 11}]}, 90001)
+        for sp, g in pairs:
+            k = spec_key(sp) + "|" + g
+            if a.get(k) != b.get(k):
+                raise Violation("reproducibility", f"{k}: first call on a fresh object gives {a.get(k)} in one fresh "
+                                                   f"interpreter and {b.get(k)} in another (other hash seed, other "
+                                                   f"generator state, {len(pairs) - 1} other first calls in reverse order)")
+        return {"events": 2 * len(pairs), "fingerprint": digest_any(sorted(a.items())), "faults": {}, "probes": {},
+                "sig": None, "nontrivial": False}
 
     def _exec_history(self, ops: list, in_child: bool = False, rng_init: int = 0xC0FFEE) -> dict:
         log = EventLog()
